@@ -2,6 +2,7 @@
 //!
 //! usage: implrun <driver> [args] < cases > results     (one result line per case line)
 mod codec;
+mod layers;
 mod timeout;
 mod util;
 
@@ -15,6 +16,7 @@ fn main() {
     util::install_panic_hook();
     match args[1].as_str() {
         "codec" => codec::run(),
+        "layers" => layers::run(),
         "timeout" => timeout::run(),
         other => {
             eprintln!("unknown driver {other}");
